@@ -165,12 +165,30 @@ def receiver_case(rng):
     return c
 
 
+def directed_pairs():
+    """the ORIGINAL as the sole owner behind Rc / Arc / by value, consumed by a provided method whose body makes one required call with
+    the same receiver kind: the instance travels into the helper and back (to_delegator / from_delegator) and is verified when the call
+    returns - no clone of it may be left alive; also with a clone of the mock alive elsewhere, and through a kept second pointer"""
+    out = []
+    for (prov, req) in ((24, 23), (30, 29), (34, 33), (35, 23)):
+        for with_clone in (False, True):
+            terms = [{"kind": "call", "mid": req, "opener": "each", "pat": {"matcher": 255, "dbg": 1, "ops": [("ret", 1)]}}]
+            evs = ([{"base": ("clone", 0)}] if with_clone else []) + [{"base": ("call", 0, prov, 2)}]
+            if with_clone:
+                evs += [{"base": ("count", 1)}, {"base": ("drop", 1)}]
+            out.append({"partial": False, "terms": terms, "events": evs})
+    for (kept, req) in ((26, 23), (32, 29)):            # the caller keeps a second Rc / Arc: nothing is consumed
+        terms = [{"kind": "call", "mid": req, "opener": "each", "pat": {"matcher": 255, "dbg": 1, "ops": [("ret", 1)]}}]
+        out.append({"partial": False, "terms": terms, "events": [{"base": ("call", 0, kept, 2)}, {"base": ("count", 0)}, {"base": ("verify", 0)}]})
+    return out
+
+
 def run(tier, seed):
     return run_coexec("C09", tier, seed, module=MODULE, theorems=THEOREMS, gen_cases=gen_cases,
                       nontrivial=nontrivial, rule=RULE, engines=engines(tier), stats=stats,
                       parts=[DelegPart("C09", receiver_case, "correspondence C09 (receiver part): handles created and released by delegation through every receiver kind "
                                        "(helper clones, the original travelling through a by-value / sole-owner Rc / Arc call and back) vs the model: strong counts, "
-                                       "which instance is the original, verdicts", rule=receiver_case.__doc__)])
+                                       "which instance is the original, verdicts", rule=receiver_case.__doc__, directed=directed_pairs)])
 
 
 def replay(path):
